@@ -54,8 +54,9 @@ func Harness_C17_foreign_archive() {
 		top, prefix = "./", "./"
 	case 1: // tar cPf x.tar /
 		top, prefix = "/", "/"
-	case 2: // tar cf x.tar t
-		top, prefix = "t"+slash, "t/"
+	case 2: // tar cf x.tar t   (or a dot-named directory: tar cf x.tar .t)
+		tn := []string{"t", ".t"}[vm.Choice("topName", 2)]
+		top, prefix = tn+slash, tn+"/"
 	}
 	add := func(name string, dir bool, size int64) {
 		tf := byte(tar.TypeReg)
@@ -86,7 +87,7 @@ func Harness_C17_foreign_archive() {
 	}
 	vm.Assert("C17.nothing_appended_to_foreign_archive", t.Appends == 0)
 	if style == 2 {
-		vm.Assert("C17.root_is_top_level_entry", root == "t" || root == "t/")
+		vm.Assert("C17.root_is_top_level_entry", root+"/" == prefix || root == prefix)
 	} else {
 		vm.Assert("C17.root_is_a_root_spelling", root == "" || root == "." || root == "./" || root == "/")
 	}
